@@ -33,7 +33,7 @@ partial def parseIAPDs : Nat → List String → Option (List IAPDReq × List St
   | _, _ => none
 
 /-- parse `reply k { iapd <iaid> <m> { <ip> <ones> <bits> <pref> <valid> } status <s> }`;
-also returns whether the shape is canonical (128-bit masks, preferred = valid, NoPrefixAvail iff empty) -/
+also returns whether the shape is what C08 states (128-bit masks, 0 < preferred ≤ valid, NoPrefixAvail iff empty) -/
 partial def parseResp : Nat → List String → Option (List IAPDResp × Bool)
   | 0, [] => some ([], true)
   | 0, _ => none
@@ -45,7 +45,7 @@ partial def parseResp : Nat → List String → Option (List IAPDResp × Bool)
         | n+1, ip :: ones :: bits :: pref :: valid :: r =>
           match (parseHex ip).bind addrOfBytes, ones.toNat?, pref.toInt?, valid.toInt? with
           | some a, some ones, some p, some v =>
-            (pf n r).map (fun (l, ok, r') => ((⟨a, ones⟩, v) :: l, ok && bits == "128" && p == v, r'))
+            (pf n r).map (fun (l, ok, r') => ((⟨a, ones⟩, v) :: l, ok && bits == "128" && decide (0 < p) && decide (p ≤ v), r'))
           | _, _, _, _ => none
         | _, _ => none
       match pf m rest with
